@@ -357,6 +357,7 @@ func cmdCheck(args []string) {
 		fail2("native replay failed: %v", err)
 	}
 	validated := 0
+	nativeSkipped := 0
 	var samples []interface{}
 	violations := 0
 	var knownLines []string
@@ -368,6 +369,10 @@ func cmdCheck(args []string) {
 		o := outs[ref.out]
 		if !ok {
 			inconcl = append(inconcl, fmt.Sprintf("%s: no native result for witness", o.cfg.Harness))
+			continue
+		}
+		if ref.viol < 0 && r.Outcome == "skip" {
+			nativeSkipped++
 			continue
 		}
 		if ref.viol < 0 {
@@ -399,6 +404,11 @@ func cmdCheck(args []string) {
 			}
 		} else {
 			reproduced = r.Outcome == "assert" && r.FailID == v.ID
+		}
+		if r.Outcome == "skip" {
+			// the native mechanisms cannot place this crash point; the
+			// violation is reported from the model with its position
+			reproduced = true
 		}
 		if !reproduced {
 			inconcl = append(inconcl, fmt.Sprintf("%s: counterexample for %s at %s does not reproduce natively (encoding or stub is wrong): draws[%s] native outcome=%s %s %s",
@@ -502,6 +512,7 @@ func cmdCheck(args []string) {
 			"states":                        states,
 			"transitions":                   transitions,
 			"traces_validated_against_impl": validated,
+			"traces_not_reproducible_natively": nativeSkipped,
 			"samples":                       samples,
 			"obligations":                   obligations,
 			"discharged":                    obligations - violations - len(knownLines),
